@@ -273,7 +273,7 @@ package cbor
 //@   ensures result == (bytesCompare(content((*entries)[i].keyBuf), content((*entries)[j].keyBuf)) < 0)
 
 //@ func (*Encoder).EncodeMap
-//@   props C11 C19 C04
+//@   props C11 C19 C04 C18
 //@   requires e.w != nil && !failed(e.w)
 //@   requires forall k int :: 0 <= k && k < len(mes) ==> entryFresh(mes[k])
 //@   requires forall a int, b int :: {mes[a], mes[b]} 0 <= a && a < b && b < len(mes) ==> mes[a] != mes[b]
